@@ -99,7 +99,8 @@ pub fn builder(ts: &J) -> Result<SchemaBuilder, String> {
                             let call = req.bump(&format!("{id}.{fname}"));
                             req.event(json!({"ev": "start", "obj": id, "field": fname, "path": path_of(ctx.ctx), "call": call, "view": crate::fam::views(ctx.ctx)}));
                             if let Some(g) = w.get("gate").and_then(|g| g.as_u64()) { if g != 0 { let _ = req.gate(g).await; } }
-                            req.event(json!({"ev": "finish", "obj": id, "field": fname, "path": path_of(ctx.ctx), "call": call}));
+                            let items = w.get("items").and_then(|i| i.as_array()).map(|a| a.len() as i64).unwrap_or(-1);
+                            req.event(json!({"ev": "finish", "obj": id, "field": fname, "path": path_of(ctx.ctx), "call": call, "items": items}));
                             field_value(&w, abstract_named)
                         })
                     }));
